@@ -93,6 +93,19 @@ theorem C17_accept_contains (gs : List CGroup) (h : WellFormed gs) (adv : PowerB
     ∃ pairs, pairsRaw (gs.map (·.toRaw)) = .ok pairs ∧ answer (plain pairs) p adjust = .ok :=
   C17_accept gs h adv ha p adjust (C17_contains_inAdvertised adv p hc)
 
+/-- Neither side depends on the order in which the battery sets are iterated (`set` / `frozenset` iteration in the
+real code): permuting the sets changes neither the advertised nor the enforced bounds. -/
+theorem C17_order_irrelevant (gs gs' : List CGroup) (h : gs.Perm gs') (hw : WellFormed gs) :
+    advertisedRaw (gs.map (·.toRaw)) = advertisedRaw (gs'.map (·.toRaw)) ∧
+    ∃ ps ps', pairsRaw (gs.map (·.toRaw)) = .ok ps ∧ pairsRaw (gs'.map (·.toRaw)) = .ok ps' ∧
+      getBounds (plain ps) = getBounds (plain ps') := by
+  constructor
+  · rw [advertisedRaw_complete, advertisedRaw_complete]
+    exact advertised_perm ((h.filter _).map _) (group_nonempty _ (wf_filter hw))
+  · refine ⟨_, _, pairsRaw_complete gs, pairsRaw_complete gs', ?_⟩
+    rw [plain_map, plain_map]
+    exact getBounds_perm ((h.filter _).map _)
+
 /-- Bounds clauses of C17: identical inclusion bounds, enforced exclusion zone inside the advertised one, every
 non-zero admitted power accepted with either `adjust_power` setting. -/
 def C17_bounds_statement : Prop :=
